@@ -78,6 +78,64 @@ def membership_records(rng, n_spaces):
     return recs
 
 
+def basics_part(ctx, rng):
+    """the vocabulary everything else rests on (object attribute tables, action enum, Grid / Agent / State basics, space getters)
+    against the specification; mismatches are drift (they would surface as violations of the properties that use them)"""
+    from harness import reps
+    from harness.tlc import run_tlc
+    from gym_gridverse.grid_object import Floor as FloorCls
+    recs = []
+    objs = reps.objects_of(steps.FAMILY_TYPES, steps.ALL_COLORS[1:]) + [proj.NONE_OBJ, proj.HIDDEN, O('Box', 0, 'NONE', O('Box', 0, 'NONE', O('Key', 0, 'RED')))]
+    for oj in objs:
+        o = proj.obj_from_json(oj)
+        recs.append({'kind': 'object', 'obj': proj.obj_to_json(o), 'type_index': int(type(o).type_index()), 'num_states': int(type(o).num_states()),
+                     'blocks_movement': bool(o.blocks_movement), 'blocks_vision': bool(o.blocks_vision), 'holdable': bool(o.holdable),
+                     'representable': bool(type(o).can_be_represented_in_state())})
+    for a in Action:
+        recs.append({'kind': 'action', 'name': a.name, 'value': int(a.value), 'is_move': bool(a.is_move()), 'is_turn': bool(a.is_turn())})
+    for _ in range(150 if ctx.quick else 3000):
+        h, w = rng.randint(1, 4), rng.randint(1, 4)
+        space = {'shape': [h, w], 'types': steps.FAMILY_TYPES, 'colors': steps.ALL_COLORS[1:]}
+        s1 = reps.random_member(rng, 'state', space)
+        s2 = rng.choice([s1, reps.mutate_one_field(rng, 'state', space, s1), reps.random_member(rng, 'state', space)])
+        a, b = proj.state_from_json(s1), proj.state_from_json(s2)
+        recs.append({'kind': 'grid_eq', 'g1': s1['grid'], 'g2': s2['grid'], 'eq': bool(a.grid == b.grid), 'hasheq': hash(a.grid) == hash(b.grid)})
+        recs.append({'kind': 'state_eq', 's1': s1, 's2': s2, 'eq': bool(a == b), 'hasheq': hash(a.agent) == hash(b.agent) and hash(a.grid) == hash(b.grid)})
+        recs.append({'kind': 'grid_types', 'g': s1['grid'], 'types': sorted(t.__name__ for t in a.grid.object_types())})
+        p = [rng.randint(0, h + 1), rng.randint(0, w + 1)]
+        got = a.grid.get((p[0], p[1]), factory=FloorCls)
+        recs.append({'kind': 'grid_get', 'g': s1['grid'], 'p': p, 'default': steps.FLOOR, 'res': proj.obj_to_json(got)})
+        from gym_gridverse.geometry import Position
+        pp, qq = [rng.randrange(h), rng.randrange(w)], [rng.randrange(h), rng.randrange(w)]
+        c = proj.state_from_json(s1)
+        c.grid.swap(Position(*pp), Position(*qq))
+        recs.append({'kind': 'grid_swap', 'g': s1['grid'], 'p': pp, 'q': qq, 'after': proj.grid_to_json(c.grid)})
+    for _ in range(40 if ctx.quick else 400):
+        types = rng.sample(reps.STATE_TYPES, rng.randint(1, len(reps.STATE_TYPES)))
+        colors = rng.sample(reps.REAL_COLORS, rng.randint(0, 4))
+        for which in ('state', 'observation'):
+            space = {'shape': [rng.randint(2, 5), rng.choice([3, 5])], 'types': types, 'colors': colors}
+            sp = build.state_space(space) if which == 'state' else build.observation_space(space)
+            recs.append({'kind': 'space_getters', 'which': which, 'space': space, 'max_type_index': int(sp.max_type_index), 'max_state_index': int(sp.max_state_index),
+                         'max_object_color': int(sp.max_object_color), 'grid_state_shape': list(sp.grid_state_shape.as_tuple)})
+    for k, r in enumerate(recs):
+        r['id'] = k
+    path = os.path.join(ctx.work, 'basics.ndjson')
+    with open(path, 'w') as f:
+        for r in recs:
+            f.write(json.dumps(r, separators=(',', ':')) + '\n')
+    res = run_tlc('Trace_Basics', env={'TRACE_FILE': path}, workers=1, timeout=1200)
+    ctx.add_tlc(res, 'Trace_Basics (object attribute tables, action enum, Grid/State basics, space getters)')
+    if res.find('DONE')[0][1] != len(recs):
+        raise RuntimeError('Trace_Basics did not validate every record')
+    for t in res.find('BAD'):
+        r = recs[t[1]]
+        ctx.drift(f"basic vocabulary differs from the specification: {r['kind']} {json.dumps({k: v for k, v in r.items() if k not in ('g', 'g1', 'g2', 's1', 's2', 'after')})[:200]}")
+    ctx.add_counts(evaluations=len(recs), traces=len(recs))
+    ctx.add_part('basic vocabulary vs specification', records=len(recs), mismatches=len(res.find('BAD')))
+    os.remove(path)
+
+
 def run(ctx, replay=None):
     if replay:
         art = json.load(open(replay))['replay']
@@ -194,6 +252,7 @@ def run(ctx, replay=None):
                           f"{sc.sst(r['cand']) if r['kind'] != 'action' else r['cand']}", {'kind': 'space', 'record': r})
     ctx.add_counts(evaluations=len(recs), traces=len(recs))
     ctx.add_part('membership predicates', candidates=len(recs))
+    basics_part(ctx, rng)
     # (v) random walks of the shipped configurations with the debug checks on
     reset_gv_debug(True)
     from checks.c17 import traj_records
